@@ -170,8 +170,8 @@ def getMajorityMemberCount (arbiterFlags : List Nat) : Nat :=
 /-! ### acceptor side -/
 
 def handleVote (self : Nat) (m : Member) : VoteResp × Member :=
-  let (a, m') := currentAof self m
-  ({ host := self, rank := m.rank, weight := m.weight, arbiter := m.arbiter, aof := a, role := getN m.roles self }, m')
+  let p := currentAof self m
+  ({ host := self, rank := m.rank, weight := m.weight, arbiter := m.arbiter, aof := p.1, role := getN m.roles self }, p.2)
 
 inductive PropRes
   | ok (old : Nat)       -- accepted; the reply carries the previous proposalId
